@@ -30,6 +30,7 @@ type SeqConfig struct {
 	Seeds [][]string
 	// OutcomeOf classifies an op application for the distinct-outcomes statistic (optional)
 	OutcomeOf func(op string, v *Violation) string
+	Params    any // written into replay files
 }
 
 type node struct {
@@ -92,7 +93,7 @@ func BFS(c *Ctx, cfg SeqConfig) {
 					if v != nil {
 						hist := append(append([]string{}, nd.hist...), op)
 						if v.Replay == nil {
-							v.Replay = map[string]any{"driver": cfg.Name, "history": hist}
+							v.Replay = map[string]any{"driver": cfg.Name, "history": hist, "params": cfg.Params}
 						}
 						v.Detail = fmt.Sprintf("%s\nhistory: %s", v.Detail, strings.Join(hist, " ; "))
 						// the same history must fail the same way every time
